@@ -957,6 +957,72 @@ def run_byte_order(ctx):
     ctx.extra["byte_order_cases"] = n
 
 
+def run_buffer_sources(ctx):
+    """Sources that are Python sequences AND export a buffer (bytearray, array.array, memoryview): copy=True never shares them,
+    whatever conversion shortcut NumPy offers; and a waveform that lives on memory it does not own never ADOPTS the argument of a
+    load_data(copy=True) - it copies into its buffer or refuses."""
+    import array
+    from nitypes.waveform import AnalogWaveform, ComplexWaveform, DigitalWaveform, Spectrum
+    n = 0
+    for kind, mk in (("bytearray", lambda: bytearray([1, 0, 1, 1, 0, 1])), ("array.array('B')", lambda: array.array("B", [1, 0, 1, 1, 0, 1])),
+                     ("memoryview", lambda: memoryview(bytearray([1, 0, 1, 1, 0, 1]))), ("array.array('b')", lambda: array.array("b", [1, 0, 1, 1, 0, 1]))):
+        for dtype in (None, np.uint8, np.int8, np.bool_):
+            for copy in (True, "default"):
+                src = mk()
+                kw = {} if copy == "default" else {"copy": True}
+                r = outcome(lambda: DigitalWaveform.from_lines(src, dtype, **kw))
+                n += 1
+                ctx.case(("buffer-source", kind, str(dtype), str(copy)))
+                if r[0] != "ok":
+                    continue
+                w = r[1]
+                before = w.data.copy()
+                try:
+                    src[0] = 0 if before.reshape(-1)[0] else 1
+                except TypeError:
+                    continue
+                if not np.array_equal(w.data, before) or np.shares_memory(np.asarray(src), w.data):
+                    ctx.violation(what="from_lines(copy=True) shares memory with a buffer-exporting source", source=kind, dtype=str(dtype), copy=str(copy),
+                                  observed="a write to the source changed the waveform", required="independent")
+    for dty, a_src in ((np.float64, "d"), (np.int32, "i"), (np.int16, "h")):
+        for copy in (True, "default"):
+            src = array.array(a_src, [1, 2, 3, 4])
+            kw = {} if copy == "default" else {"copy": True}
+            r = outcome(lambda: AnalogWaveform.from_array_1d(src, dty, **kw))
+            n += 1
+            ctx.case(("buffer-source", "array.array", str(dty), str(copy)))
+            if r[0] == "ok":
+                src[0] = 99
+                if r[1].raw_data[0] == 99:
+                    ctx.violation(what="from_array_1d(copy=True) shares memory with an array.array source", dtype=str(dty), observed="shared", required="independent")
+    # load_data(copy=True) into a waveform whose buffer is borrowed (cannot grow): copy into it when it fits, otherwise refuse or allocate - never adopt
+    for cls, key, dty in ((AnalogWaveform, "raw_data", np.float64), (ComplexWaveform, "raw_data", np.complex128), (Spectrum, "data", np.float64), (DigitalWaveform, "data", np.uint8)):
+        for backing in ("slice-view", "2d-row", "frombuffer"):
+            for n_load in (2, 3, 6):
+                base = (np.arange(10) % 2).astype(dty)
+                if backing == "slice-view":
+                    view = base[2:5]
+                elif backing == "2d-row":
+                    view = (np.arange(12) % 2).astype(dty).reshape(4, 3)[1]
+                else:
+                    view = np.frombuffer(bytearray(base[:3].tobytes()), dty)
+                r = outcome(lambda: cls(**{key: view.reshape(-1, 1) if cls is DigitalWaveform else view}))
+                if r[0] != "ok":
+                    continue
+                w = r[1]
+                arg = ((np.arange(n_load) + 1) % 2).astype(dty)
+                if cls is DigitalWaveform:
+                    arg = arg.reshape(-1, 1)
+                o = outcome(w.load_data, arg)            # copy=True is the default
+                n += 1
+                ctx.case(("load-into-borrowed", cls.__name__, backing, n_load))
+                raw = getattr(w, key)
+                if o[0] == "ok" and raw.size and np.shares_memory(raw, arg):
+                    ctx.violation(what="load_data(copy=True) made the waveform share memory with its argument", cls=cls.__name__, buffer=backing, loaded=n_load,
+                                  capacity=len(view), observed="shares memory with the loaded array", required="a copy (or a refusal when the borrowed buffer cannot grow)")
+    ctx.extra["buffer_source_cases"] = n
+
+
 def run(ctx):
     import warnings
     lines, expect = [], []
@@ -969,6 +1035,7 @@ def run(ctx):
             run_xy(ctx, tmpdir, lines, expect)
             run_shim(ctx)
             run_byte_order(ctx)
+            run_buffer_sources(ctx)
             run_props_timing(ctx, lines, expect)
         res = ctx.model(lines)
         if res is not None:
